@@ -15,8 +15,8 @@ theorem verdict : (classify Generated.factsC03).Sound (Holds (cfgOf Generated.fa
 #print axioms compact_no_fsync_loses
 #print axioms C03_partial
 #print axioms holds_of_good
-#print axioms Hv.Storage.loadFile_clean
-#print axioms Hv.Storage.addManyW_spec
-#print axioms Hv.Storage.atomic_of_shape
+#print axioms Hv.BlockStore.loadFile_clean
+#print axioms Hv.BlockStore.addManyW_spec
+#print axioms Hv.BlockStore.atomic_of_shape
 
 end Hv.C03
